@@ -579,7 +579,7 @@ class ExprMixin:
             if not items:
                 return '((%s){0})' % ti['c']
             return '((%s){ %s })' % (ti['c'], ', '.join(items))
-        if not ti['suf'] and e.get('inner'):
+        if len(e.get('inner', [])) == 1 and not any(x.startswith('[') for x in ti['suf']):
             return self.rv(e['inner'][0], cx)
         if not e.get('inner'):
             return '((%s)0)' % self.decl_of(ti)
@@ -794,6 +794,14 @@ class ExprMixin:
         # ---- special cases
         if q in ('std::move', 'std::forward', 'std::as_const') and len(args) == 1:
             return '&%s' % self.lv(args[0], cx)
+        if fd.get('name') in ('__builtin_is_constant_evaluated', '__is_constant_evaluated') or q == 'std::is_constant_evaluated':
+            return '0'
+        if fd.get('name') == '__builtin_unreachable':
+            self.emit_pre(cx, '__CPROVER_assert(0, "repo_assert unreachable reached %s");' % self.ast.loc(e))
+            self.emit_pre(cx, '__CPROVER_assume(0);')
+            return '((void)0)'
+        if fd.get('name') == '__builtin_expect' and len(args) == 2:
+            return self.rv(args[0], cx)
         if q in ('std::terminate', 'abort', 'std::abort'):
             self.emit_pre(cx, '__CPROVER_assert(0, "repo_terminate %s");' % self.ast.loc(e))
             self.emit_pre(cx, '__CPROVER_assume(0);')
